@@ -64,7 +64,7 @@ func Quiet() { log15.Root().SetHandler(log15.DiscardHandler()) }
 // Open opens (or reopens) the real mavl store on a LevelDB under dir.
 func Open(dir string, c Cfg) *mavl.Store {
 	os.MkdirAll(dir, 0o755)
-	return mavl.New(&types.Store{Name: "mavl", Driver: "leveldb", DbPath: dir, DbCache: 8}, c.sub(), nil).(*mavl.Store)
+	return mavl.New(&types.Store{Name: "mavl", Driver: "leveldb", DbPath: dir, DbCache: 4}, c.sub(), nil).(*mavl.Store)
 }
 
 // EmptyRoot is the root of the empty state.
